@@ -166,8 +166,10 @@ def script(ctx, cfg, model, cookies):
             rej += 1
             if r.kind == "R":
                 # is there a validated flow with the same cookie? -> the recorded table-keyed-by-cookie defect
+                # equal cookies on two different tuples of a random script are NOT the recorded birthday collision
+                # (that one is reproduced from its stored witness only): report them under their own key
                 same = known and any(c == ck for fl_, c in model.validated.items() if fl_ != f_id)
-                key = KNOWN_COLLISION if same else "data_accepted_without_cookie"
+                key = "data_accepted_without_cookie:equal_cookies_on_distinct_flows" if same else "data_accepted_without_cookie"
                 errs.append("%s unvalidated flow, ack=%s (cookie %s): answered with %s" % (key, kind, ck, pkt.summary(r.reply)))
         for e_ in errs:
             ctx.violation(e_.split(" ")[0], e_ + "; segment " + pkt.summary(f), observed=r.reply.hex() if r.reply else r.kind,
